@@ -51,6 +51,12 @@ def run_tree_case(ctx):
     # a populated sector (hostile ones are tried first, like in the chain cases)
     from rv.props.c06 import hostile_sector
     qntot, extreme = hostile_sector(rng, gm)
+    if (ctx.idx // 6) % 4 == 1:
+        # every fourth tree case: the sector whose total label vanishes (with the non-negative labels the tree constructors
+        # need that is the state with nothing in it - the smallest sector there is, and the one a "zero means no symmetry"
+        # shortcut would get wrong)
+        qntot, extreme = np.zeros(gm.qn_size, dtype=int), True
+        ctx.cls("tree-sector:total-label-zero")
     if extreme:
         ctx.cls("sector:extreme")
     sdim = int(dense.sector_mask(tm.phys, qntot).sum())
